@@ -305,12 +305,12 @@ class SymReal:
                        "here (value %r)" % (self,))
 
     def __int__(self):
-        return _ctx.cur().concretize_int(trunc_z3(self.z3()))
+        return _ctx.cur().concretize_int(None, real=self.z3())
 
     def __index__(self):
         # an integer-valued term used where Python needs an int (range, indexing, shapes):
         # enumerate its feasible values (fork per value)
-        return _ctx.cur().concretize_int(trunc_z3(self.z3()))
+        return _ctx.cur().concretize_int(None, real=self.z3())
 
     def __bool__(self):
         return bool(self != 0)
@@ -696,7 +696,16 @@ def floor_real(a):
     c = a.const()
     if c is not None:
         return float(math.floor(c))
-    return atom(z3.ToReal(z3.ToInt(a.z3())), ('floor', a.key()))
+    cx = _ctx.cur()
+    key = ('floor', a.key())
+    idx = cx.atom_by_key.get(key)
+    if idx is None:
+        k = cx.fresh_int('floor')
+        kr = z3.ToReal(k)
+        idx = cx.new_atom(kr, key)
+        az = a.z3()
+        cx.add_axiom(z3.And(kr <= az, az < kr + 1), heavy=False)
+    return SymReal({((idx, 1),): Fr(1)})
 
 
 def mod(a, b):
